@@ -5,7 +5,7 @@ all strings hex ("-" = empty, "none" = NULL / absent):
   copy <name> <n>                                  -> "-1" | "0 <dest>"
   cfc <size> <name> (nolist | <k> e1 .. ek)         -> "0" | "1 <entry>"
   find|ext <destLen> <name> <dir> <dir>             -> "0" | "1 <path>"
-        <dir> ::= none | <path> (nolist | <k> e1 .. ek)      (instrument path first, module dir second)
+        <dir> ::= none | <path> (nolist | <k> e1 .. ek)      (instrument path as configured, "" allowed, first; module dir second)
   dirbase <path>                                   -> "<dirname> <basename>"
   flt <path|none>                                  -> "<k> p1 .. pk"
   mfp <path|none>                                  -> "<k> p1 .. pk"
@@ -65,11 +65,11 @@ def handle (ws : List String) : Option String :=
   | "find" :: dl :: name :: rest =>
     let (ins, r1) := parseDir rest
     let (md, _) := parseDir r1
-    some (showOpt (findInstrumentFile ins md (dl.toNat?.getD 0) (parseHex name)))
+    some (showOpt (findInstrumentFile (instrumentPath ins none) md (dl.toNat?.getD 0) (parseHex name)))
   | "ext" :: dl :: name :: rest =>
     let (ins, r1) := parseDir rest
     let (md, _) := parseDir r1
-    some (showOpt (externalSamplePath ins md (dl.toNat?.getD 0) (parseHex name)))
+    some (showOpt (externalSamplePath (instrumentPath ins none) md (dl.toNat?.getD 0) (parseHex name)))
   | ["dirbase", p] =>
     let b := parseHex p
     some s!"{toHex (getDirname b)} {toHex (getBasename b)}"
